@@ -34,11 +34,23 @@ BUILD = os.environ.get("VERIF_BUILD", os.path.join(VERIF, ".build"))          # 
 EVDIR = os.environ.get("VERIF_EVIDENCE_DIR", os.path.join(VERIF, "evidence"))   # only the seed runner redirects this
 
 
+_created = []
+
+
 def builddir(pid):
     d = os.path.join(BUILD, pid)
     shutil.rmtree(d, ignore_errors=True)
     os.makedirs(d)
+    _created.append(d)
     return d
+
+
+def cleanup():
+    """scratch of this run (goto binaries, SMT files) is removed when the check ends; replay files (BUILD/replay) and the native replay build (BUILD/native) stay"""
+    if os.environ.get("VERIF_KEEP_BUILD"):
+        return
+    for d in _created:
+        shutil.rmtree(d, ignore_errors=True)
 
 
 def _limits(mem_gb):
